@@ -8,7 +8,6 @@ import (
 	"strings"
 	"sync"
 
-	_ "github.com/go-critic/go-critic/checkers" // Register go-critic checkers
 	"github.com/go-critic/go-critic/linter"
 
 	"golang.org/x/tools/go/analysis"
